@@ -722,6 +722,27 @@ def strip_attrs(term):
     return term
 
 
+def dc20a_fixed():
+    """True iff finding DC20a is listed as fixed (known_findings.d/C20.json is the per-property source): the
+    committed harness then expects fixes/DC20a-phs-compare-operation-attributes.diff applied to the tree under test
+    and asks the driver for the model variant that identifies operations by name AND attributes. Override for
+    experiments: C20_DC20A_FIXED=0/1."""
+    import json
+    import os
+    env = os.environ.get("C20_DC20A_FIXED", "")
+    if env in ("0", "1"):
+        return env == "1"
+    p = os.path.join(os.path.dirname(os.path.dirname(os.path.dirname(os.path.abspath(__file__)))),
+                     "known_findings.d", "C20.json")
+    try:
+        return any(f.get("id") == "DC20a" and f.get("status") == "fixed" for f in json.load(open(p))["findings"])
+    except (OSError, ValueError, KeyError):
+        return True
+
+
+FIXED = dc20a_fixed()
+
+
 def attr_clause(bodies):
     """clause of C20_history_partial: among the operations of these bodies the class determines the operation"""
     seen = {}
@@ -1131,7 +1152,7 @@ class C20(Prop):
             except Exception as e:  # noqa: BLE001
                 self_dec = {"raised": type(e).__name__}
             out["steps"].append({"pe": pj, "ssa_ok": ssa_ok, "hyp_ok": True,
-                                 "attr_clause": attr_clause([bodies[i] for i in merged_so_far]),
+                                 "attr_clause": FIXED or attr_clause([bodies[i] for i in merged_so_far]),
                                  "true": abst.get_true_switches(), "dec": decs, "self": self_dec})
         return out
 
@@ -1141,9 +1162,9 @@ class C20(Prop):
             return [{"fn": "c20.fromops", "args": {"ops": [
                 [name, [case["arg_tys"][s[1]] for s in srcs], rty] for name, rty, srcs in case["ops"]]}}]
         if case["kind"] == "graphs":
-            return [{"fn": "c20.graphs", "args": {"graphs": case["graphs"], "plan": case["plan"]}}]
+            return [{"fn": "c20.graphs", "args": {"fixed": FIXED, "graphs": case["graphs"], "plan": case["plan"]}}]
         if case["kind"] == "pass":
-            return [{"fn": "c20.history", "args": {"merged_only": True, "bodies": [
+            return [{"fn": "c20.history", "args": {"fixed": FIXED, "merged_only": True, "bodies": [
                 b for b, a in zip(case["bodies"], case["accs"]) if a == acc]}} for acc in sorted({a for a in case["accs"] if a is not None})]
         if not all(well_typed(b) for b in case["bodies"]):
             return []
@@ -1152,6 +1173,7 @@ class C20(Prop):
             args["groups"] = case["groups"]
         if case.get("merged_only"):
             args["merged_only"] = True
+        args["fixed"] = FIXED
         return [{"fn": "c20.history", "args": args}]
 
     def model(self, case, answers):
@@ -1267,7 +1289,7 @@ class C20(Prop):
                     continue
                 # known finding DC20a: the element computes the kernel's term up to the ATTRIBUTES of its operations,
                 # and the merged kernels use one operation class with different attributes (attr_clause fails)
-                fid = "DC20a" if (not attr_clause([bodies[q] for q in merged])
+                fid = "DC20a" if (not FIXED and not attr_clause([bodies[q] for q in merged])
                                   and strip_attrs(got) == strip_attrs(want_t)) else None
                 # terms differ: decide on concrete inputs
                 if pts is None:
